@@ -337,8 +337,14 @@ func (vf *VerifyFunc) doCall(st *State, fr *Frame, in ssa.Instruction, cc *ssa.C
 	if cc.IsInvoke() && vf.nopanic {
 		st.check("nopanic", "nil-iface-call@"+st.pos(in), "C14", "method call on nil interface", st.pos(in), not(eq(args[0].Tm, "iface_nil")))
 	}
-	// contract (generic instantiations share the contract of the generic function)
+	// contract (generic instantiations share the contract of the generic function); a contract may be scoped to
+	// the calling package (key@pkgpath), e.g. sort.Slice with the comparator used in that package
 	fc := eng.cs.Funcs[key]
+	if fr.fn.Pkg != nil {
+		if sc, ok := eng.cs.Funcs[key+"@"+fr.fn.Pkg.Pkg.Path()]; ok {
+			fc = sc
+		}
+	}
 	if fc == nil {
 		if g := stripTypeArgs(key); g != key {
 			fc = eng.cs.Funcs[g]
@@ -664,7 +670,7 @@ func (vf *VerifyFunc) builtin(st *State, fr *Frame, in ssa.Instruction, name str
 			return &Val{T: rt.At(0).Type(), S: SBytes, Tm: r}
 		}
 		if a.S == SSlice && b.S == SSlice {
-			return vf.appendSlice(st, rt.At(0).Type(), a, b)
+			return vf.appendSlice(st, rt.At(0).Type(), a, b, st.appendInplace)
 		}
 	case "copy":
 		st.havocAll("builtin copy")
@@ -717,11 +723,17 @@ func (vf *VerifyFunc) builtin(st *State, fr *Frame, in ssa.Instruction, name str
 	return st.freshVal(rt, name)
 }
 
-// appendSlice models append(a, b...) for non-byte slices: result has a fresh or shared backing;
-// element i < len(a) equals a[i], element len(a)+j equals b[j].
-func (vf *VerifyFunc) appendSlice(st *State, t types.Type, a, b *Val) *Val {
+// appendSlice models append(a, b...) for non-byte slices on ONE of the two possible outcomes:
+// inplace (capacity suffices: the result shares a's backing array) or reallocation (fresh backing holding a
+// copy of a's elements). The interpreter forks the path on the two outcomes.
+func (vf *VerifyFunc) appendSlice(st *State, t types.Type, a, b *Val, inplace bool) *Val {
 	es := sortOf(t.Underlying().(*types.Slice).Elem())
-	newLen := "(+ (s_len " + a.Tm + ") (s_len " + b.Tm + "))"
+	newLen := st.named(SInt, "applen", "(+ (s_len "+a.Tm+") (s_len "+b.Tm+"))")
+	if inplace {
+		st.assume("(<= " + newLen + " (s_cap " + a.Tm + "))")
+	} else {
+		st.assume(or("(> "+newLen+" (s_cap "+a.Tm+"))", eq("(s_len "+b.Tm+")", "0"), eq("(s_base "+a.Tm+")", "0"), "true"))
+	}
 	if es == "" {
 		st.note("append on slice of composite elements abstracted")
 		r := st.freshVal(t, "append")
@@ -731,35 +743,37 @@ func (vf *VerifyFunc) appendSlice(st *State, t types.Type, a, b *Val) *Val {
 	key := "E:" + es
 	as := heapSortFor(key, es)
 	h := st.heapGet(key, as)
-	// Sound over-approximation: result backing is either a's backing (in place, when capacity allows)
-	// or a fresh backing. Model by case split on a fresh boolean.
-	inplace := st.fresh("append_inplace", SBool)
-	st.assume(implies(inplace, "(<= "+newLen+" (s_cap "+a.Tm+"))"))
-	st.assume(implies("(> "+newLen+" (s_cap "+a.Tm+"))", not(inplace)))
-	nb := st.newRef("appbacking")
-	base := ite(inplace, "(s_base "+a.Tm+")", nb)
-	off := ite(inplace, "(s_off "+a.Tm+")", "0")
-	ncap := st.fresh("append_cap", SInt)
-	st.assume("(>= " + ncap + " " + newLen + ")")
-	st.assume(implies(inplace, eq(ncap, "(s_cap "+a.Tm+")")))
+	var base, off, ncap string
+	if inplace {
+		base, off, ncap = "(s_base "+a.Tm+")", "(s_off "+a.Tm+")", "(s_cap "+a.Tm+")"
+	} else {
+		base = st.newRef("appbacking")
+		off = "0"
+		ncap = st.fresh("append_cap", SInt)
+		st.assume("(and (>= " + ncap + " " + newLen + ") (<= " + ncap + " 9223372036854775807))")
+	}
 	res := "(mk_slice " + base + " " + off + " " + newLen + " " + ncap + ")"
-	// contents: new backing array of the result
-	nbArr := st.fresh("append_arr", "(Array Int "+es+")")
 	aArr := sel(h, "(s_base "+a.Tm+")")
 	bArr := sel(h, "(s_base "+b.Tm+")")
+	var cur string
+	if inplace {
+		cur = aArr
+	} else {
+		cur = st.fresh("append_arr", "(Array Int "+es+")")
+		// the fresh backing holds a copy of a's elements
+		st.assume("(forall ((i Int)) (! (=> (and (<= 0 i) (< i (s_len " + a.Tm + "))) (= (select " + cur + " (sidx 0 i)) (select " + aArr + " (sidx (s_off " + a.Tm + ") i)))) :pattern ((select " + cur + " (sidx 0 i)))))")
+	}
 	if n, ok := parseNum(strings.TrimSpace(sliceLenConst(b.Tm))); ok && n.IsInt64() && n.Int64() <= 4 {
-		// small constant number of appended elements: precise stores
-		cur := ite(inplace, aArr, nbArr)
 		for j := int64(0); j < n.Int64(); j++ {
 			cur = store(cur, "(sidx "+off+" (+ (s_len "+a.Tm+") "+fmt.Sprint(j)+"))", sel(bArr, "(sidx (s_off "+b.Tm+") "+fmt.Sprint(j)+")"))
 		}
-		// fresh backing copies the prefix
-		st.assume("(forall ((i Int)) (! (=> (and (<= 0 i) (< i (s_len " + a.Tm + "))) (= (select " + nbArr + " (sidx 0 i)) (select " + aArr + " (sidx (s_off " + a.Tm + ") i)))) :pattern ((select " + nbArr + " (sidx 0 i)))))")
 		st.heapSet(key, as, store(h, base, cur))
 		return &Val{T: t, S: SSlice, Tm: res}
 	}
-	st.note("append with symbolic number of elements: contents abstracted")
+	// symbolic number of appended elements: element j of b lands at position len(a)+j
 	newArr := st.fresh("append_res", "(Array Int "+es+")")
+	st.assume("(forall ((i Int)) (! (=> (and (<= 0 i) (< i (s_len " + a.Tm + "))) (= (select " + newArr + " (sidx " + off + " i)) (select " + cur + " (sidx " + off + " i)))) :pattern ((select " + newArr + " (sidx " + off + " i)))))")
+	st.assume("(forall ((i Int)) (! (=> (and (<= 0 i) (< i (s_len " + b.Tm + "))) (= (select " + newArr + " (sidx " + off + " (+ (s_len " + a.Tm + ") i))) (select " + bArr + " (sidx (s_off " + b.Tm + ") i)))) :pattern ((select " + bArr + " (sidx (s_off " + b.Tm + ") i)))))")
 	st.heapSet(key, as, store(h, base, newArr))
 	return &Val{T: t, S: SSlice, Tm: res}
 }
